@@ -72,6 +72,10 @@ func (c *MustacheTokenizer) ReadNextToken() *tokenizers.Token {
 	// Proces other tokens
 	c.special = false
 	token := c.AbstractTokenizer.ReadNextToken()
+	// An unknown token inside a tag must not be mistaken for the initial state
+	if token != nil && token.Type() == tokenizers.Unknown {
+		c.LastTokenType = tokenizers.Symbol
+	}
 	// Switch to quote when '{{' or '{{{' symbols found
 	if token != nil && (token.Value() == "}}" || token.Value() == "}}}") {
 		c.special = true
